@@ -7,8 +7,8 @@ PROP = dict(
         "statime_algo::estimator::EstimatorState::{clock_offset,clock_frequency,absorb_*,progress_time(dt=0)}, statime_base::Duration::{from_f64_seconds,as_seconds}",
     ],
     bounds="c43_query: one clock, offset and frequency estimates arbitrary f64 bit patterns, variances from {4,9}, any clock id for the unknown-clock case; "
-           "c43_steer: system clock (c43_steer_2: + one more steered clock), no links, zero time step; all estimates finite f64 with |offset| < 4.6e18 s, variances 1e-6 s^2 (concrete), clock's current frequency finite, maximum frequency finite >= 0 (all symbolic)",
-    outside="symbolic variances (the code takes sqrt(variance): two symbolic square roots did not finish in 20 min), so the slew/step decision threshold is fixed at 5 ms; steering after a measurement/time progression (matrix arithmetic on symbolic f64), links present (leap vote / root delay selection), clocks returning errors, NaN/infinite estimates (a NaN estimate makes clamp() return NaN: not a reachable state from finite inputs), "
+           "c43_steer (thorough tier): system clock, no links, zero time step; all estimates finite f64 with |offset| < 4.6e18 s, variances 1e-6 s^2 (concrete), clock's current frequency finite, maximum frequency finite >= 0 (all symbolic)",
+    outside="a second steered clock (harness c43_steer_2 exists, not run to completion); symbolic variances (the code takes sqrt(variance): two symbolic square roots did not finish in 20 min), so the slew/step decision threshold is fixed at 5 ms; steering after a measurement/time progression (matrix arithmetic on symbolic f64), links present (leap vote / root delay selection), clocks returning errors, NaN/infinite estimates (a NaN estimate makes clamp() return NaN: not a reachable state from finite inputs), "
             "|offset| >= 2^62 s (Duration saturates while the non-system-clock filter entry absorbs the unsaturated value); the control law itself (which frequency is wanted) is not part of the property",
     assumptions=[
         "c43_query asserts the frequency query only when offset and frequency estimates coincide (value and variance); the complement is the finding harness c43_query_kf_frequency_is_offset",
@@ -18,8 +18,7 @@ PROP = dict(
     stub_notes=["no stubs; Clock implemented by the harness (records set_frequency/step_clock arguments in ghost statics)"],
     harnesses=[
         H(ST, "c43", "c43_query", "clock_offset reports offset estimate + standard deviation; unknown clock -> Err; clock_frequency correct where offset==frequency"),
-        H(ST, "c43", "c43_steer", "system clock only: every set_frequency(x) has |x| <= max of that clock; frequency estimate changes by exactly fl(x - current); a step changes the offset estimate by the applied Duration (<= 2^-64 s + one rounding), system clock step moves filter time; other entries bit-identical", timeout=900),
-        H(ST, "c43", "c43_steer_2", "the same with a second steered clock (non-system clock step absorbs -offset directly; each clock's steering leaves the other's entries bit-identical)", tier="thorough", timeout_thorough=1800),
+        H(ST, "c43", "c43_steer", "system clock only: every set_frequency(x) has |x| <= max of that clock; frequency estimate changes by exactly fl(x - current); a step changes the offset estimate by the applied Duration (<= 2^-64 s + one rounding), system clock step moves filter time; other entries bit-identical (350-480 s on a loaded machine)", tier="thorough", timeout_thorough=1800),
         H(ST, "c43", "c43_query_kf_frequency_is_offset", "FINDING (expected to fail until fixed): KalmanController::clock_frequency returns the offset estimate", timeout=900),
     ],
 )
